@@ -14,6 +14,22 @@ BASELINE_OFF = (
 
 # pid -> (category, technique, text, note, design_ref)
 CHECKS = {
+    "C01": (
+        "model_checking",
+        "stateless deviation-bounded DFS over two real endpoints on a simulated network (virtual time)",
+        "Two real QuicConnection objects are closed with a simulated network and a virtual clock; for each "
+        "of 20 sharp application scripts (packet-filling sizes, FIN-only frames, resets, STOP_SENDING, key "
+        "updates, CID changes, both directions, uni/bidi) and 2-4 configurations (reno/cubic x v1/v2 x "
+        "stream-set order) EVERY schedule with at most d network deviations (drop, duplicate, delay past "
+        "the ack delay / past the PTO, client rebinding, late timers) is executed, followed by a fair phase "
+        "to quiescence. Monitors check prefix/exactly-once/no-close at every step and complete delivery at "
+        "the end. Bugs of this property need a coincidence of 1-2 faults with a particular write pattern; "
+        "bounded-deviation exhaustive search is the technique that arranges every such coincidence.",
+        "d<=1 on all scripts, d<=2 on a seed-rotated sixth (quick) / all scripts, d<=3 on the five shortest, "
+        "plus the closure of all 1-2 operation scripts (thorough). Fixed 10 ms one-way latency; corruption "
+        "excluded (C02). Nothing is claimed beyond the deviation bound or for scripts outside the menu/closure.",
+        "DESIGN.md §4 C01",
+    ),
     "C10": (
         "model_checking",
         "explicit-state BFS to closure over the real stream/RangeSet objects vs reference model",
